@@ -34,7 +34,8 @@ def cases(draw, closed_only, allow_verify):
         "src_missing": sorted(draw(st.sets(st.integers(0, 15), max_size=draw(st.sampled_from([0, 0, 1, 2]))))),
         "form": draw(st.sampled_from(forms)),
         "index": draw(st.booleans()),
-        "fail": sorted(draw(st.sets(st.integers(0, 15), min_size=1, max_size=3))) if plan_kind == "fail" else [],
+        "fail": sorted(draw(st.sets(st.one_of(st.integers(0, 15), st.integers(0, 15), st.integers(0, 2500)),
+                                    min_size=1, max_size=3))) if plan_kind == "fail" else [],
         "abort_at": draw(st.sampled_from([1, 1, 2, 2, 3, 4, 5, 7])) if plan_kind == "abort" else None,
         "verify": False,
         "corrupt": [],
